@@ -205,39 +205,29 @@ Proof. vm_compute. repeat split; reflexivity. Qed.
 
 (* ---- malformed tokens --------------------------------------------------------------------------- *)
 
-(* Full-strength statement for the memory ReadPage (what the property asks for):
-     forall A (l : list A) size from, size <> 0 -> offset_sound l size from
-   i.e. a token is rejected, or read as a lower bound (the page is a prefix of the items at or
-   after the offset it denotes), and never panics.  The code as it is REFUTES it (finding F5): *)
-Theorem malformed_token_rejected_refuted :
-  (exists (l : list N) size from, size <> 0 /\ ~ offset_sound l size from
-      /\ read_mem l (Z.of_N size) (from ++ [c_pipe]) = Page [0; 1] [49; 48; 49; 124])
-  /\ (exists (l : list N) size from, size <> 0 /\ ~ offset_sound l size from
-      /\ read_mem l (Z.of_N size) (from ++ [c_pipe]) = Panic).
-Proof. exact PagingProofs.malformed_token_rejected_refuted. Qed.
-Print Assumptions malformed_token_rejected_refuted.
+(* memory ReadPage (offset tokens), since fix 3cab6a7: EVERY byte string is rejected (unparsable, or
+   a negative offset) or read as a lower bound -- the page is a prefix of the items at or after the
+   offset it denotes (an offset beyond the end: the empty last page); nothing before it comes back,
+   and there is no panic.  For all lists, page sizes and tokens. *)
+Theorem malformed_token_rejected : forall (A : Type) (l : list A) (size : N) (from : bytes),
+  offset_sound l size from.
+Proof. exact @malformed_token_rejected_memory. Qed.
+Print Assumptions malformed_token_rejected.
 
-(* partial: it holds for every token outside the two computed triggers (negative offset; offset
-   beyond the end of a non-empty listing) ... *)
-Theorem malformed_token_rejected_partial : forall (A : Type) (l : list A) (size : N) (from : bytes),
-  size <> 0 -> offset_finding (length l) from = None -> offset_sound l size from.
-Proof. exact @PagingProofs.malformed_token_rejected_partial. Qed.
-Print Assumptions malformed_token_rejected_partial.
-
-(* ... and the triggers are exact: every other token IS misread *)
-Theorem malformed_token_rejected_iff_no_trigger : forall (A : Type) (l : list A) (size : N) (from : bytes),
-  size <> 0 -> (offset_sound l size from <-> offset_finding (length l) from = None).
-Proof. exact @offset_sound_iff. Qed.
-Print Assumptions malformed_token_rejected_iff_no_trigger.
-
-Example malformed_token_ex :
-  offset_finding 5 [52] = None /\ offset_finding 5 [53] = None
-  /\ offset_finding 5 [54] = Some FOffsetBeyondEndRestarts
-  /\ offset_finding 5 [45; 49] = Some FNegativeOffsetPanics
-  /\ offset_finding 5 [120] = None
+Example malformed_token_rejected_ex :
+  read_mem five 2 [57; 57; 124] = Page [] []
+  /\ read_mem five 2 [45; 49; 124] = Rejected EInvalidToken
   /\ read_mem five 2 [120; 124] = Rejected EInternal
-  /\ read_mem five 2 [52; 124] = Page [4] [].
+  /\ read_mem five 2 [52; 124] = Page [4] []
+  /\ read_mem five 2 [53; 124] = Page [] []
+  /\ read_mem five 2 [50; 124] = Page [2; 3] [52; 124].
 Proof. vm_compute. repeat split; reflexivity. Qed.
+
+(* history only (finding F5, repaired by 3cab6a7): what the same tokens did before the fix *)
+Example malformed_token_before_fix :
+  read_cmd (page_offset_before_3cab6a7 five) 2 [57; 57; 124] = Page [0; 1] [49; 48; 49; 124]
+  /\ read_cmd (page_offset_before_3cab6a7 five) 2 [45; 49; 124] = Panic.
+Proof. vm_compute. split; reflexivity. Qed.
 
 (* the other backends/paths read EVERY byte string either as a lower bound or reject it *)
 Theorem token_lower_bound_clamped_offsets : forall (A : Type) le (rows : list (bytes * A)) (size : N)
